@@ -79,7 +79,7 @@ prop("C05", "Only the counterparty, in its proper role", "exploration", "mgrx",
 
 prop("C10", "Restart resumes the same transfer", "exploration", "mgrx",
      "property testing (rapid): before/after identity diff of the channel record, content of the re-issued request / transport open, validator call order; crash-restart in cleanup statuses",
-     [hx("TestC10_GsxPending", 2400, 64000), hx("TestC16_Gsx", 2400, 64000), hx("TestC10_MgrxLocal", 4500, 128000), hx("TestC10_MgrxReplay", 3000, 96000), hx("TestC10_MgrxCleanup", 1800, 32000), hx("TestC04_MgrxRestart", 2400, 32000), hx("TestC05_MgrxRestart", 2400, 32000)],
+     [hx("TestC10_GsxPending", 2400, 64000), hx("TestC16_Gsx", 2400, 64000), hx("TestC10_MgrxLocal", 4500, 128000), hx("TestC10_MgrxReplay", 3000, 96000), hx("TestC10_MgrxCleanup", 1800, 32000), hx("TestC04_MgrxRestart", 2400, 32000), hx("TestC05_MgrxRestart", 2400, 32000), hx("TestC13_Migrate", 1200, 16000)],
      ["'a rejected restart fails the channel' is applied to the incoming restart request path; a responder whose own validator rejects a locally requested restart must send nothing and return an error (DESIGN 6.3)"],
      "generated roles x progress points x statuses x process restart x validator outcomes; sampled",
      TRUST)
@@ -144,7 +144,7 @@ prop("C17", "Subscribers see every applied event once, in order", "exploration",
 
 prop("C06", "Durable and prefix-consistent across crashes", "fault_enumeration", "fsmx",
      "stateful property testing (rapid) with crash-point enumeration: every datastore write boundary of each generated history is materialised and reopened, decoded state compared with the publication-log snapshot that was current",
-     [hx("TestC06_Fsmx", 900, 16000)],
+     [hx("TestC06_Fsmx", 900, 16000), hx("TestC13_Migrate", 1200, 16000), hx("TestC10_MgrxCleanup", 1800, 32000)],
      ["crash model: the process stops between two datastore writes; a Put / Batch.Commit is atomic (torn writes inside the datastore are out of scope)",
       "messages and type identifiers are kept <= 4096 bytes (the generated codec caps strings at 8192)"],
      "within each generated history the crash points are enumerated (thorough: all write boundaries; quick: all when <= 40, else 40 including first and last); histories themselves are sampled",
@@ -159,14 +159,14 @@ prop("C07", "Transfer accounting counts every block position once", "exploration
 
 prop("C08", "Data limits stop the transfer at the limit", "exploration", "fsmx",
      "model-based property testing (rapid): boundary-biased limit schedules against the reference rule 'pause iff limit != 0, the report advanced the total and total >= limit'",
-     [hx("TestC08_Fsmx", 4500, 128000), hx("TestC08_Mgrx", 4500, 128000)],
+     [hx("TestC08_Fsmx", 4500, 128000), hx("TestC08_Mgrx", 4500, 128000), hx("TestC13_Migrate", 1200, 16000)],
      ["'no further payload progresses while paused' is asserted on the control flow (pause signal / pause call / nothing resumed), not on bytes in flight inside graphsync"],
      "generated limit schedules with boundary bias (total == limit reached in ~1/6 of the cases); sampled",
      TRUST)
 
 prop("C09", "Cleanup exactly once per ending; closing never hangs", "exploration", "fsmx",
      "stateful property testing (rapid) with racing injections: cleanup-call counter per ending against the publication log, settle-without-input watchdog, crash-restart in cleanup statuses",
-     [hx("TestC09_Fsmx", 3000, 64000), hx("TestC09_Mgrx", 3000, 64000), hx("TestC09_Gsx", 3000, 64000), hx("TestC20_GsxCancelUnconfirmed", 32, 320)],
+     [hx("TestC09_Fsmx", 3000, 64000), hx("TestC09_Mgrx", 3000, 64000), hx("TestC09_Gsx", 3000, 64000), hx("TestC20_GsxCancelUnconfirmed", 32, 320), hx("TestC13_Migrate", 1200, 16000), hx("TestC10_MgrxCleanup", 1800, 32000)],
      ["exactly-once is asserted when no event is applied during the cleanup window; with k racing events the bound is 1..1+k (DESIGN 6.1)",
       "bounded liveness: 'settles' / 'returns' use a 20 s watchdog against microsecond latencies"],
      "generated endings from every reachable status with and without racing events; schedules of the race are sampled by the Go scheduler",
@@ -174,7 +174,7 @@ prop("C09", "Cleanup exactly once per ending; closing never hangs", "exploration
 
 prop("C11", "Pause state per party", "exploration", "fsmx",
      "model-based stateful property testing (rapid) against a two-flag reference model updated by applied events only; ignored actions must leave accessors and bytes identical",
-     [hx("TestC11_Fsmx", 7500, 192000), hx("TestC11_Mgrx", 4500, 128000), hx("TestC11_GsxMatrix", 1500, 16000), hx("TestC04_MgrxRestart", 3000, 64000)],
+     [hx("TestC11_Fsmx", 7500, 192000), hx("TestC11_Mgrx", 4500, 128000), hx("TestC11_GsxMatrix", 1500, 16000), hx("TestC04_MgrxRestart", 3000, 64000), hx("TestC13_Migrate", 1200, 16000)],
      [],
      "generated interleavings of the four pause/resume actions and limit pauses in every reachable status, both roles; sampled",
      TRUST)
